@@ -14,7 +14,9 @@ EapVector(d) ==
   Vector("eap", << Step("eap_encode", "C14", TRUE, [eap |-> d], ExpectEapEncode(d)),
                    Step("eap_decode", "C14", FALSE, [wire |-> Ref(1, "wire"), caps |-> TRUE], [panic |-> FALSE, capdiff |-> FALSE, err |-> FALSE, eap |-> d]),
                    Step("eap_decode", "C14", FALSE, [wire |-> w, caps |-> FALSE], ExpectEapDecode(w)),
-                   Step("eap_reencode", "C12", FALSE, [wire |-> w], ExpectEapReencode(w)) >>)
+                   Step("eap_reencode", "C12", FALSE, [wire |-> w], ExpectEapReencode(w)),
+                   \* C14 itself: a decoded, unmodified packet encodes to the well-formed packet again (same octets, so padding and lengths intact)
+                   Step("eap_reencode", "C14", FALSE, [wire |-> w], ExpectEapReencode(w)) >>)
 
 \* all codes with and without data (only the codes of the domain carry an expectation beyond "no crash")
 CodeVector(c) ==
@@ -39,13 +41,17 @@ KautPool == << FillT("seeded", 32, 1), FillT("seeded", 0, 0), FillT("seeded", 1,
                FillT("seeded", 64, 5), FillT("seeded", 65, 6), FillT("ff", 32, 0) >>
 MacT(key, octets) == Slice(Hmac("sha256", key, Lit(MacInput(octets))), 0, 16)
 WithMac(d, v) == [d EXCEPT !.attrs = AttrMap(Append(SelectSeq(d.attrs, LAMBDA a : a.t # AT_MAC), [t |-> AT_MAC, v |-> v]), << >>)]
+\* operations a caller may perform on the packet object before asking for the code: it must not depend on them
+OpsPool == << << >>, << "marshal" >>, << "calc" >>, << "setmac_result", "marshal" >>, << "setmac_garbage", "marshal" >>,
+              << "marshal", "calc", "marshal" >>, << "calc", "setmac_result", "marshal", "marshal" >>, << "reencode" >>, << "setmac_result", "reencode", "marshal" >> >>
 SenderVector(d, ki) ==
   LET key == KautPool[ki]
       sent == EncEap(WithMac(d, Zeros(16)))                   \* the packet as it goes on the wire, MAC field zeroed
       stale == WithMac(d, Const(16, 170)) IN
   Vector("akamac_sender",
-    << Step("aka_mac", "C15", FALSE, [eap |-> d, key |-> key, site |-> "sender"], [panic |-> FALSE, err |-> FALSE, mac |-> MacT(key, sent), again |-> TRUE]),
-       Step("aka_mac", "C15", FALSE, [eap |-> stale, key |-> key, site |-> "sender-stale-mac"], [panic |-> FALSE, err |-> FALSE, mac |-> MacT(key, sent), again |-> TRUE]) >>)
+    [j \in 1..Len(OpsPool) |->
+       Step("aka_mac", "C15", FALSE, [eap |-> IF j % 2 = 0 THEN stale ELSE d, key |-> key, ops |-> OpsPool[j], site |-> "sender-ops" \o ToString(j)],
+            [panic |-> FALSE, err |-> FALSE, mac |-> MacT(key, sent), again |-> TRUE])])
 
 \* receiver side: W-form packets from the independent encoder in a given attribute order, with given reserved octets;
 \* the transmitted MAC is the code over the wire octets; the receiver must obtain it -- and another one if an octet or the key differs
@@ -56,6 +62,8 @@ ReceiverVector(w, ki, cls) ==
       flipAt == Len(b0) - 1 IN
   Vector("akamac_receiver",
     << Step("aka_mac", "C15", FALSE, [wire |-> b0, key |-> key, site |-> cls], [panic |-> FALSE, err |-> FALSE, mac |-> mac]),
+       Step("aka_mac", "C15", FALSE, [wire |-> b0, key |-> key, ops |-> << "marshal" >>, site |-> cls \o "-marshalled"], [panic |-> FALSE, err |-> FALSE, mac |-> mac]),
+       Step("aka_mac", "C15", FALSE, [wire |-> b0, key |-> key, ops |-> << "calc", "marshal", "calc" >>, site |-> cls \o "-recalc"], [panic |-> FALSE, err |-> FALSE, mac |-> mac]),
        Step("aka_mac", "C15", FALSE, [wire |-> FlipBit(b0, flipAt, 0), key |-> key, site |-> cls \o "-flipped"],
             [panic |-> FALSE, err |-> FALSE, mac |-> MacT(key, FlipBit(b0, flipAt, 0))]),
        Step("aka_mac", "C15", FALSE, [wire |-> b0, key |-> FillT("seeded", 32, 99), site |-> cls \o "-otherkey"],
